@@ -84,6 +84,9 @@ fn balanced(n: usize, seed: u64, pattern: u64) -> Verdict {
         }
     }
     let ratio = w2 as f64 / w1 as f64;
+    if std::env::var_os("VERIF_C20_TRACE").is_some() {
+        eprintln!("C20-trace n={} w1={} w2={} ratio={:.3} assign={:.3} square={:.3}", n, w1, w2, ratio, wa2 as f64 / wa1 as f64, ws2 as f64 / ws1 as f64);
+    }
     if w1 == 0 || w2 == 0 {
         return Err("harness: work counter did not move (hooks not compiled in?)".into());
     }
@@ -100,7 +103,8 @@ fn balanced(n: usize, seed: u64, pattern: u64) -> Verdict {
         info = info.class("absolute_bound_at_4096");
     }
     Ok(info.class(match n {
-        0..=511 => "n_256..511",
+        0..=255 => "n_33..255_karatsuba_band",
+        256..=511 => "n_256..511",
         512..=1023 => "n_512..1023",
         1024..=2047 => "n_1024..2047",
         2048..=4095 => "n_2048..4095",
@@ -111,6 +115,9 @@ fn balanced(n: usize, seed: u64, pattern: u64) -> Verdict {
 fn unbalanced(n: usize, m: usize, seed: u64) -> Verdict {
     let w = work(&dense(seed, n), &dense(seed ^ 0xaa, m))?;
     let school = n as u64 * m as u64;
+    if std::env::var_os("VERIF_C20_TRACE").is_some() {
+        eprintln!("C20-trace n={} m={} w={} school={} frac={:.3}", n, m, w, school, w as f64 / school as f64);
+    }
     if w > school {
         return Err(format!("an unbalanced {} x {} digit product used {} digit multiplications, more than the schoolbook count {}", n, m, w, school));
     }
@@ -119,7 +126,7 @@ fn unbalanced(n: usize, m: usize, seed: u64) -> Verdict {
     if w2 > school {
         return Err(format!("an unbalanced {} x {} digit product used {} digit multiplications, more than the schoolbook count {}", m, n, w2, school));
     }
-    Ok(Info::new(true).class("unbalanced_vs_schoolbook").class_if(m >= 60 * n, "shape_n_x_64n").class_if(m == 2 * n, "shape_n_x_2n").class_if(m + 1 == 2 * n, "shape_n_x_2n-1"))
+    Ok(Info::new(true).class("unbalanced_vs_schoolbook").class_if(m >= 60 * n, "shape_n_x_64n").class_if(m == 2 * n, "shape_n_x_2n").class_if(m + 1 == 2 * n, "shape_n_x_2n-1").class_if(m > n && m < 2 * n - 1, "shape_near_balanced"))
 }
 
 impl Property for C20 {
@@ -127,7 +134,7 @@ impl Property for C20 {
         "C20"
     }
     fn rule(&self) -> &'static str {
-        "Cases: balanced (n, operand seed) for n in {256, 320, 384, 512, 768, 1024, 1536, 2048} (quick; thorough adds 3072, 4096, 6144, 8192) with dense operands (every digit non-zero) W(2n)/W(n) <= 3.4 where W counts the digit multiplications of one product through the work-counter hook - for `&a * &b`, for `a *= &b` on an object whose buffer has spare capacity from an earlier larger value, and for the self-product `&a * &a`; in 40% of the cases operands with every other digit (or two digits in three) zero are added and must not cost more than 1.25x the dense operands of the same length in any of the three forms - and W(4096 x 4096) < 4096^2/4 whenever 4096 is one of the two sizes; unbalanced (n, m, seed) over the shapes n x (2n-1), n x 2n, n x 3n, n x 64n for n in {33, 64, 100, 256, 300, 512}: W <= n*m in both operand orders. Every product is also checked for correctness by modular fingerprints (and exactly when the shorter operand has <= 600 digits). Non-trivial: every case (all sizes are above the documented thresholds); distinct by (shape, seed)."
+        "Cases: balanced (n, operand seed) for n in {256, 320, 384, 512, 768, 1024, 1536, 2048} (quick; thorough adds 3072, 4096, 6144, 8192) and for n anywhere in 33..=255 (just above the 32-digit schoolbook threshold and across the Karatsuba band) with dense operands (every digit non-zero) W(2n)/W(n) <= 3.4 where W counts the digit multiplications of one product through the work-counter hook - for `&a * &b`, for `a *= &b` on an object whose buffer has spare capacity from an earlier larger value, and for the self-product `&a * &a`; in 40% of the cases operands with every other digit (or two digits in three) zero are added and must not cost more than 1.25x the dense operands of the same length in any of the three forms - and W(4096 x 4096) < 4096^2/4 whenever 4096 is one of the two sizes; unbalanced (n, m, seed) over the shapes n x (2n-1), n x 2n, n x 3n, n x 64n for n in {33, 64, 100, 256, 300, 512}, plus free shapes n x m with n in 33..=600 and m from n+1 (near-balanced) to 64n: W <= n*m in both operand orders. Every product is also checked for correctness by modular fingerprints (and exactly when the shorter operand has <= 600 digits). Non-trivial: every case (all sizes are above the documented thresholds); distinct by (shape, seed)."
     }
     fn technique(&self) -> &'static str {
         "metamorphic property-based testing (proptest) on a deterministic work counter (no timing): cost ratios under length doubling and against the schoolbook count"
@@ -147,9 +154,18 @@ impl Property for C20 {
             }
             v
         };
+        // just above the schoolbook threshold (32 digits) and across the Karatsuba band: doubling already gives 3
+        let small_sizes = prop_oneof![select(vec![33u64, 34, 40, 48, 64, 65, 100, 127, 128, 129, 200, 255]), 33u64..=255];
+        // free unbalanced shapes, near-balanced (m in (n, 2n)) and wide
+        let free = prop_oneof![
+            (33u64..=600, 101u64..=200).prop_map(|(n, f)| (n, n * f / 100 + 1)),
+            (33u64..=600, 2u64..=64).prop_map(|(n, f)| (n, n * f - f % 3)),
+        ];
         prop_oneof![
-            50 => (select(sizes), any::<u64>(), prop_oneof![60 => Just(0u64), 40 => 0u64..9]).prop_map(|(n, s, p)| Case::new("balanced", vec![Arg::U(n as u128), Arg::U(s as u128), Arg::U(p as u128)])),
-            50 => (select(ub), any::<u64>()).prop_map(|((n, m), s)| Case::new("unbalanced", vec![Arg::U(n as u128), Arg::U(m as u128), Arg::U(s as u128)])),
+            15 => (small_sizes, any::<u64>(), prop_oneof![60 => Just(0u64), 40 => 0u64..9]).prop_map(|(n, s, p)| Case::new("balanced", vec![Arg::U(n as u128), Arg::U(s as u128), Arg::U(p as u128)])),
+            15 => (free, any::<u64>()).prop_map(|((n, m), s)| Case::new("unbalanced", vec![Arg::U(n as u128), Arg::U(m as u128), Arg::U(s as u128)])),
+            35 => (select(sizes), any::<u64>(), prop_oneof![60 => Just(0u64), 40 => 0u64..9]).prop_map(|(n, s, p)| Case::new("balanced", vec![Arg::U(n as u128), Arg::U(s as u128), Arg::U(p as u128)])),
+            35 => (select(ub), any::<u64>()).prop_map(|((n, m), s)| Case::new("unbalanced", vec![Arg::U(n as u128), Arg::U(m as u128), Arg::U(s as u128)])),
         ]
         .boxed()
     }
@@ -157,7 +173,7 @@ impl Property for C20 {
         match c.op.as_str() {
             "balanced" => {
                 let n = c.u(0) as usize;
-                if !(256..=16384).contains(&n) {
+                if !(33..=16384).contains(&n) {
                     return Err("harness: size outside the generated domain".into());
                 }
                 balanced(n, c.u(1) as u64, if c.args.len() > 2 { c.u(2) as u64 } else { 0 })
